@@ -294,3 +294,25 @@ CHECKS["C17"] = {
         J("strings", AGENT, "TestC17PolicyStrings", {"shards": 1}, toolchain="go126", rapid=False),
     ],
 }
+
+CHECKS["C03"] = {
+    "level": "exploration",
+    "engine": "E1 store-lib",
+    "level_text": "Generated user names from the complement of the schema grammar (empty, leading - . _ @, separators, '..' traversal into a sibling store with a known password, absolute paths, "
+                  "aliases of a valid user after path cleaning, control bytes, NUL, over-long, non-UTF-8, arbitrary bytes) x every store operation x every frontend, executed in a sandbox tree with a "
+                  "sibling store of identical parameters and decoy credential files, so that a followed traversal yields a positive verdict or a visible change; plus a syscall-level confinement check "
+                  "of a traced driver process (E5).",
+    "level_note": "Trusted: the sandbox snapshot (bytes of every file under the sandbox root), the tracer's syscall table (DESIGN.md appendix C). stat-family calls are not in the property's list and are not flagged.",
+    "technique": "property-based testing (rapid) with grammar-complement generators in a decoy sandbox; snapshot-diff and syscall-path-confinement oracles",
+    "oracle": "invalid name: add/update/set-admin error, remove/exists no-op, authenticate never ok through any frontend, snapshot of the whole sandbox unchanged; invalid-named files never listed, never the "
+              "required admin; traced operations touch only base/<f>.user|.admin, base/.tmp/*",
+    "rule": "a case = (name, operation[, frontend]). Non-trivial = an invalid name whose lexical join with the base directory lands on an existing credential file inside or outside the base; "
+            "distinct = distinct (name class, operation, name)",
+    "assumptions": [],
+    "required_classes": {"all": ["name:resolves-to-existing-credential-file", "nameclass:traversal", "nameclass:alias", "nameclass:absolute", "nameclass:control", "invalid-named-file:only-admin=true"]},
+    "jobs": [
+        J("names", VSTORE, "TestC03Names", {"shards": 8, "checks": 300}, {"shards": 16, "checks": 6000}),
+        J("files", VSTORE, "TestC03InvalidNamedFiles", {"shards": 2, "checks": 200}, {"shards": 8, "checks": 3000}),
+        J("frontends", AGENT, "TestC03Frontends", {"shards": 4, "checks": 80}, {"shards": 16, "checks": 2000}, toolchain="go126"),
+    ],
+}
